@@ -11,7 +11,8 @@ package geom
 //@ pred TagLen(t) = ite(t == 0, 0, ite(t == 3, 4, 3))
 //@ func appendWKTHeader
 //@   split ctype 0 1 2 3
-//@   requires ctype < 4
+//@   requires ctype < 4 && len(geomType) > 0
+//@   ensures Kept(result, dst)
 //@   modifies dst
 //@   ensures len(result) == len(dst) + len(geomType) + TagLen(ctype)
 //@   ensures forall q :: 0 <= q && q < len(dst) ==> result[q] == old(dst[q])
@@ -20,6 +21,7 @@ package geom
 // EMPTY is set off from what precedes it by '(' ',' or a single space
 //@ func appendWKTEmpty
 //@   modifies dst
+//@   ensures Kept(result, dst)
 //@   ensures len(result) >= len(dst) + 5 && len(result) <= len(dst) + 6
 //@   ensures forall q :: 0 <= q && q < len(dst) ==> result[q] == old(dst[q])
 //@   ensures (cap(dst) > 0 && region(result) == region(dst) && offset(result) == offset(dst)) || fresh(result)
